@@ -24,7 +24,8 @@ def _snap(x):
         return ("dict", tuple(sorted((k, _snap(v)) for k, v in x.items())))
     if hasattr(x, "__dict__") and type(x).__module__.startswith("persim"):
         # a landscape / imager object passed as an argument: everything it holds is part of the observable argument
-        return ("obj", type(x).__name__, tuple(sorted((k, _snap(v)) for k, v in vars(x).items())))
+        # (its public attributes; private `_name` members are caches an implementation may fill lazily without changing anything observable)
+        return ("obj", type(x).__name__, tuple(sorted((k, _snap(v)) for k, v in vars(x).items() if not k.startswith("_"))))
     return ("v", repr(x))
 
 
@@ -168,11 +169,11 @@ def entry_points(rng):
 
     def grid_ops(ls):
         A, B = ls[0], ls[2]
-        return [(A + B).values, (A - B).values, (2.0 * A).values, (A * 3.0).values, (A / 2.0).values, (-A).values, A.p_norm(2), B.sup_norm(), (A + A).values, A[0:1]]
+        return [(2.0 * A).p_norm(2), (A / 2.0).p_norm(1), (A * 3.0).sup_norm(), (A + B).values, (A - B).values, (2.0 * A).values, (A * 3.0).values, (A / 2.0).values, (-A).values, A.p_norm(2), B.sup_norm(), (A + A).values, A[0:1]]
     add("grid landscape operators on shared operands", grid_ops, lambda: mk_grid_landscapes(True))
 
     def exact_ops(P, Q):
-        return [(P + Q).critical_pairs, (P - Q).critical_pairs, (P + P).critical_pairs, (2.0 * P).critical_pairs, (P / 2.0).critical_pairs, (-Q).critical_pairs, P.p_norm(2), Q.sup_norm(),
+        return [(2.0 * P).p_norm(2), (P / 2.0).sup_norm(), (P + Q).critical_pairs, (P - Q).critical_pairs, (P + P).critical_pairs, (2.0 * P).critical_pairs, (P / 2.0).critical_pairs, (-Q).critical_pairs, P.p_norm(2), Q.sup_norm(),
                 vectorize(P, start=0.0, stop=10.0, num_steps=7).values, (P + Q).critical_pairs]
     add("exact landscape operators on shared operands", exact_ops, lambda: (PersLandscapeExact(dgms=[dg()], hom_deg=0), PersLandscapeExact(dgms=[dg()], hom_deg=0)))
 
